@@ -32,3 +32,16 @@ def between_year_months(start, end, units):
     p = Period.between(start, end, units)
     back = start.on_day_of_month(1) + p
     return (p.years, p.months, p.weeks, p.days, p.has_time_component, back._days_since_epoch)
+
+
+def ldt_plus_period(ldt, period, carry_days):
+    """What LocalDateTime.plus(period) must equal on the date side, spelled with the date operations themselves."""
+    got = ldt.plus(period)
+    want_date = ldt.date.plus_years(period.years).plus_months(period.months).plus_weeks(period.weeks).plus_days(period.days + carry_days)
+    return (got.date._days_since_epoch, got.time_of_day.nanosecond_of_day, want_date._days_since_epoch)
+
+
+def ldt_minus_period(ldt, period, carry_days):
+    got = ldt.minus(period)
+    want_date = ldt.date.plus_years(-period.years).plus_months(-period.months).plus_weeks(-period.weeks).plus_days(carry_days - period.days)
+    return (got.date._days_since_epoch, got.time_of_day.nanosecond_of_day, want_date._days_since_epoch)
